@@ -6,7 +6,7 @@
    arbitrary answer scripts (iterators yielding after None, lying size hints). *)
 From Coq Require Import ZArith List Bool Lia Permutation.
 From MV Require Import Ast Eval Scalar Machine Model Policy.
-From MV.Proofs Require Import Arith Logic Prim View OpsLocal Guards Drops DrainIt Retain CapHistory Core FilterIt.
+From MV.Proofs Require Import Arith Logic Prim View OpsLocal Guards Drops DrainIt Retain CapHistory Core FilterIt Grow Dedup.
 Import ListNotations.
 Open Scope Z_scope.
 
@@ -70,7 +70,7 @@ Example C17_history_hypotheses_satisfiable :
               next_elem := 0; drop_panics := [1; 3]; clone_panics := []; alloc_fail := None;
               alloc_limit := 1073741824; events := [] |} in
   cfg_ok cfg /\ vinv cfg s 0 /\
-  Forall coreop_ok [KPush 5; KPush 6; KRetain [84; 70; 80]; KCap CShrinkToFit; KPop; KTruncate 0; KRemove 3].
+  Forall coreop_ok [KPush 5; KPush 6; KRetain [84; 70; 80]; KDedup SameScript [84; 80]; KDedup SameEq []; KCap CShrinkToFit; KPop; KTruncate 0; KRemove 3].
 Proof.
   split; [repeat split; reflexivity|]. split; [left; reflexivity|].
   repeat constructor; simpl; lia.
@@ -116,3 +116,28 @@ Theorem C17_drain_filter_drop_any_point_any_script :
 Proof. exact filter_drop_spec. Qed.
 
 Print Assumptions C17_drain_filter_drop_any_point_any_script.
+
+(* dedup / dedup_by / dedup_by_key with ANY notion of "same" -- the elements' own == (where an
+   element may be unequal to itself), a key function, or an arbitrary scripted comparator (true /
+   false / panic in any order: non-reflexive, non-transitive, lying): the loop only permutes the
+   vector's own elements; the ledger is untouched on both exits (nothing destroyed, duplicated, lost) *)
+Theorem C17_dedup_any_comparator :
+  forall cfg, cfg_ok cfg -> forall k v b bl0 l off s0,
+  canon_off bl0 = Some off ->
+  (forall e, In e (view (slots bl0) l) -> tracked cfg = false \/ ledger s0 e = Live) ->
+  forall fuel s read write sc,
+  permuted cfg s0 s v b bl0 l -> 1 <= write <= read -> read <= l -> (Z.to_nat (l - read) <= fuel)%nat ->
+  post (dedup_loop cfg fuel k (PElt b off 0) l read write sc s)
+    (fun w s' => 0 <= w <= l /\ permuted cfg s0 s' v b bl0 l)
+    (fun s' => permuted cfg s0 s' v b bl0 l).
+Proof. exact dedup_loop_spec. Qed.
+
+(* ... and the whole call keeps the ownership invariant (it is an operation of the history theorem
+   C17_all_core_histories: KDedup with any kind of comparison and any script) *)
+Theorem C17_dedup_keeps_the_invariant :
+  forall cfg, cfg_ok cfg -> needs_drop cfg = true -> forall s v k sc,
+  vinv cfg s v ->
+  post (dedup_by cfg v k sc s) (fun _ s' => vinv cfg s' v) (fun s' => vinv cfg s' v).
+Proof. exact dedup_inv. Qed.
+Print Assumptions C17_dedup_any_comparator.
+Print Assumptions C17_dedup_keeps_the_invariant.
